@@ -101,6 +101,8 @@ long long libconfig_parse_integer(const char *s, int *ok)
   int errsave = errno;
   errno = 0;
   llval = strtoll(s, &endptr, 0);	/* base 10 or base 8 */
+  if(*endptr == 'L')			/* optional L or LL suffix */
+    endptr += (endptr[1] == 'L') ? 2 : 1;
   if(*endptr || errno)
   {
     errno = 0;
@@ -115,7 +117,7 @@ long long libconfig_parse_integer(const char *s, int *ok)
 
 /* ------------------------------------------------------------------------- */
 
-unsigned long long libconfig_parse_hex64(const char *s)
+unsigned long long libconfig_parse_hex64(const char *s, int *ok)
 {
 #ifdef __MINGW32__
 
@@ -125,6 +127,8 @@ unsigned long long libconfig_parse_hex64(const char *s)
 
   const char *p = s;
   unsigned long long val = 0;
+
+  *ok = 1;
 
   if(*p != '0')
     return(0);
@@ -136,6 +140,8 @@ unsigned long long libconfig_parse_hex64(const char *s)
 
   for(++p; isxdigit(*p); ++p)
   {
+    if(val >> 60)
+      *ok = 0; /* more than 64 bits */
     val <<= 4;
     val |= ((*p < 'A') ? (*p & 0xF) : (9 + (*p & 0x7)));
   }
@@ -144,7 +150,14 @@ unsigned long long libconfig_parse_hex64(const char *s)
 
 #else /* ! __MINGW32__ */
 
-  return(strtoull(s, NULL, 16));
+  unsigned long long val;
+  int errsave = errno;
+  errno = 0;
+  val = strtoull(s, NULL, 16);
+  *ok = (errno == 0); /* ERANGE: more than 64 bits */
+  errno = errsave;
+
+  return(val);
 
 #endif /* __MINGW32__ */
 }
